@@ -26,7 +26,9 @@ MANIFEST = dict(
          "bookkeeping is ALSO regenerated from the source on every run (harness/c03_tx.py: add_new_proposal_weight + "
          "update_proposal_weights + compute_meta_proposal_from_log_q over Python dictionaries in insertion order -> "
          "Gen/MetaTx.lean) and proved equal to the model's addProposalWeight (errors included) and mix "
-         "(add_new_proposal_weight_source_eq_model, meta_from_log_q_source_eq_model).",
+         "(add_new_proposal_weight_source_eq_model, meta_from_log_q_source_eq_model); update_log_q and the re-weighting sequence "
+         "of add_and_update_points are recognised statement by statement and proved to leave every stored sample as the model's "
+         "upd does (reweight_store_source_eq_model).",
     note="Densities q_k(x) are inputs of the model (the harness evaluates the exactly-known tilt densities as rationals at the stored "
          "float coordinates); neural-flow runs are checked by the oracle only (float32 tolerance). Ordering/alignment of rows is C04.",
     technique="Lean 4 proof (invariant by induction over iterations, any field; weight bookkeeping translated from the source and "
